@@ -2,6 +2,7 @@ package schema
 
 import (
 	"fmt"
+	"strings"
 
 	"verif/pkg/prng"
 )
@@ -201,6 +202,27 @@ func (g *gen) consts(slots int) {
 	}
 }
 
+// oddTags are comments shaped like tags that the parser accepts as tags or as plain
+// comments, but that make poor Go struct tags (empty, spaces, quotes or backquotes inside).
+var oddTags = []string{"[tag()]", "[tag(not a key)]", "[tag(a\"b)]", "[tag(db:unquoted)]", "[tag(json:\"with `backquote`\")]", "[tag(x:\"\")]", "[tag(k:\"v\") ]", "[tag(dup)]", "[tag(dup)]"}
+
+// tagLines draws one to three tag comments for one field (one per comment line).
+func (g *gen) tagLines() string {
+	n := 1
+	if g.r.Chance(1, 3) {
+		n = g.r.Range(2, 3)
+	}
+	var out []string
+	for i := 0; i < n; i++ {
+		if g.r.Chance(1, 4) {
+			out = append(out, oddTags[g.r.Intn(len(oddTags))])
+		} else {
+			out = append(out, tagComments[g.r.Intn(len(tagComments))])
+		}
+	}
+	return strings.Join(out, "\n")
+}
+
 var tagComments = []string{"[tag(json:\"f,omitempty\")]", "[tag(db:\"col\")]", "[tag(flagged)]", "[tag(json:\"more colons::\")]"}
 
 var commentTexts = []string{" doc", " two\n lines", " stars * and / slashes", " unicode \u00e9\u4e16", " x", " trailing star *", " [not a tag]", " looks like code: struct X { }"}
@@ -323,7 +345,7 @@ func (g *gen) structDef(name string, top bool) *Def {
 		f := Field{Name: g.nm.fresh(false), Type: g.fieldType(0, KStruct, name)}
 		f.Deprecated = g.r.Chance(1, 10)
 		if g.r.Chance(1, 6) {
-			f.Comment = tagComments[g.r.Intn(len(tagComments))]
+			f.Comment = g.tagLines()
 		}
 		d.Fields = append(d.Fields, f)
 	}
@@ -364,7 +386,7 @@ func (g *gen) messageDef(name string, top bool) *Def {
 			f.Comment = commentTexts[g.r.Intn(len(commentTexts))]
 		}
 		if g.r.Chance(1, 6) {
-			f.Comment = tagComments[g.r.Intn(len(tagComments))]
+			f.Comment = g.tagLines()
 		}
 		d.Fields = append(d.Fields, f)
 	}
